@@ -74,7 +74,11 @@ class FortranNameManager:
     def make_fortran_identifier(name):
         # Fortran identifiers are case-insensitive: 'y' and 'Y' must not end
         # up as 'lploc_y' and 'lploc_Y'.
-        return make_identifier_from_name(name).lower()
+        result = make_identifier_from_name(name).lower()
+
+        # Identifiers may have at most 63 characters. Leave room for the
+        # 'dagrt_refcnt_' prefix and for the suffix that makes names unique.
+        return result[:45]
 
     def __init__(self):
         from pytools import UniqueNameGenerator
